@@ -158,6 +158,8 @@ struct RunOut {
     got: HashMap<usize, Vec<String>>,
     /// words that produced no result: outcome of the run that was to deliver it
     failed: HashMap<usize, String>,
+    /// number of words not run because the batch was abandoned
+    aborted: usize,
 }
 
 impl RunOut {
@@ -187,7 +189,7 @@ fn collect_probes(events: &[Value], got: &mut HashMap<usize, Vec<String>>) {
 /// environment (timeout, chroot) are tool errors: exit 2.
 fn run_batch(tree: &Tree, words: &[(usize, &[Unit])], noglob: bool, mode: Mode) -> RunOut {
     let mut rest: Vec<(usize, &[Unit])> = words.to_vec();
-    let mut all = RunOut { outcome: "completed".to_string(), got: HashMap::new(), failed: HashMap::new() };
+    let mut all = RunOut { outcome: "completed".to_string(), got: HashMap::new(), failed: HashMap::new(), aborted: 0 };
     let mut restarts = 0;
     while !rest.is_empty() {
         let r = run_batch_once(tree, &rest, noglob, mode);
@@ -203,8 +205,10 @@ fn run_batch(tree: &Tree, words: &[(usize, &[Unit])], noglob: bool, mode: Mode) 
                 rest = rest[k + 1..].to_vec();
                 restarts += 1;
                 if restarts > 25 {
-                    eprintln!("yv-c05: more than 25 failing words in one batch ({}): giving up", r.outcome);
-                    std::process::exit(2);
+                    // the shell does not get through its scripts at all: the
+                    // failures seen so far are the verdict, the rest is not run
+                    all.aborted = rest.len();
+                    break;
                 }
             }
         }
@@ -234,9 +238,9 @@ fn run_batch_once(tree: &Tree, words: &[(usize, &[Unit])], noglob: bool, mode: M
                         Outcome::Completed => "completed".to_string(),
                         _ => r.outcome_str(),
                     };
-                    RunOut { outcome, got, failed: HashMap::new() }
+                    RunOut { outcome, got, failed: HashMap::new(), aborted: 0 }
                 }
-                Err(msg) => RunOut { outcome: format!("panic: {msg}"), got, failed: HashMap::new() },
+                Err(msg) => RunOut { outcome: format!("panic: {msg}"), got, failed: HashMap::new(), aborted: 0 },
             }
         }
         Mode::Real => {
@@ -269,7 +273,7 @@ fn run_batch_once(tree: &Tree, words: &[(usize, &[Unit])], noglob: bool, mode: M
             } else {
                 "completed".to_string()
             };
-            RunOut { outcome, got, failed: HashMap::new() }
+            RunOut { outcome, got, failed: HashMap::new(), aborted: 0 }
         }
     }
 }
@@ -332,6 +336,7 @@ fn replay(args: &[String]) {
     let mut n_mismatch = 0usize;
     let mut n_sim_only = 0usize;
     let mut real_trees = 0usize;
+    let mut n_not_run = 0usize;
     let mut samples: Vec<Value> = vec![];
     let n_un = cases.iter().filter(|c| c.un).count();
 
@@ -342,13 +347,27 @@ fn replay(args: &[String]) {
         n_outside += cases.iter().filter(|c| !c.un && c.r[ti].is_none()).count();
         let on_real = tree.has_links() || ti < real_first || (real_stride > 0 && ti % real_stride == 0);
         let sim = run_batch(tree, &sel, false, Mode::Sim);
+        n_not_run += sim.aborted;
+        // a word counts as deviating if its result is not allowed or it failed;
+        // words of an abandoned batch (neither result nor failure) are not judged
         let conforms = |r: &RunOut, i: &usize| {
             let allowed = cases[*i].r[ti].as_ref().unwrap();
-            r.got.get(i).map(|g| allowed.iter().any(|a| a == g)).unwrap_or(false)
+            match r.got.get(i) {
+                Some(g) => allowed.iter().any(|a| a == g),
+                None => !r.failed.contains_key(i),
+            }
         };
         let real = if on_real {
             real_trees += 1;
-            Some(run_batch(tree, &sel, false, Mode::Real))
+            let r = run_batch(tree, &sel, false, Mode::Real);
+            if r.got.is_empty() && !sim.got.is_empty() && !sel.is_empty() {
+                // the same shell delivers results on the simulated system: the
+                // real run did not work for reasons outside the code under test
+                eprintln!("yv-c05: no probe event from the real run of tree {} ({})", ti + 1, r.outcome);
+                std::process::exit(2);
+            }
+            n_not_run += r.aborted;
+            Some(r)
         } else {
             // words on which the simulated run deviates are also run on the
             // real file system, so that every deviation can be classified
@@ -396,7 +415,14 @@ fn replay(args: &[String]) {
                 n_mismatch += 1;
                 report(Mode::Real, r, real_state);
             }
-            if samples.len() < 6 && !trivial && (*i % 97 == 3 || allowed.len() > 1 && samples.len() < 2) {
+            let want_sample = match samples.len() {
+                0 | 1 => allowed.len() == 1 && allowed[0].len() >= 3 && us.len() >= 2,
+                2 => allowed.len() > 1,
+                3 => tree.has_links() && !trivial && allowed[0].len() >= 2,
+                4 | 5 => !trivial && *i % 97 == 3,
+                _ => false,
+            };
+            if want_sample {
                 let (pre, word) = render(us);
                 samples.push(json!({"tree": ti + 1, "cwd": tree.cwd, "word": format!("{pre}probe {word}"), "allowed": allowed,
                     "observed_sim": sim.got.get(i), "observed_real": real.as_ref().and_then(|r| r.got.get(i))}));
@@ -413,6 +439,9 @@ fn replay(args: &[String]) {
                 for (i, us) in &all {
                     n_noglob += 1;
                     let want = vec![cases[*i].ng.clone()];
+                    if !r.got.contains_key(i) && !r.failed.contains_key(i) {
+                        continue; // batch abandoned after repeated failures
+                    }
                     if r.got.get(i) != Some(&want) {
                         n_mismatch += 1;
                         let (pre, word) = render(us);
@@ -432,7 +461,7 @@ fn replay(args: &[String]) {
         "trees": trees.len(), "words": cases.len(), "unspecified_words": n_un, "outside_cases": n_outside,
         "sim_cases": n_sim, "real_cases": n_real, "real_trees": real_trees, "noglob_cases": n_noglob,
         "nontrivial_cases": n_nontrivial, "cases_with_choice": n_choice,
-        "mismatches": n_mismatch, "sim_only_mismatches": n_sim_only, "samples": samples,
+        "mismatches": n_mismatch, "sim_only_mismatches": n_sim_only, "not_run_after_failures": n_not_run, "samples": samples,
     });
     println!("{summary}");
 }
